@@ -83,6 +83,12 @@ class _RequestHandler:
             raise RequestHandlerError(format(e))
         except HSM2ProtocolInterrupt as e:
             raise RequestHandlerShutdown(format(e))
+        except RecursionError as e:
+            # A document the parser accepts can still be too deeply nested
+            # for the interpreter to process (e.g., to print it in a log line).
+            # That is a format error too.
+            self.logger.debug("Recursion error: %s", e)
+            response = self.protocol.format_error()
         except Exception as e:
             message = "Unknown exception while handling request: %s" % format(e)
             self.logger.critical(message)
